@@ -30,6 +30,23 @@ def _is_total_prelude(stmt: ast.stmt) -> bool:
     return False
 
 
+# calls that are total in a thread target (cannot fail for a reason the property quantifies over), one reason each
+TOTAL_CALLS = {
+    "isinstance": "builtin type test",
+    "ok": "Result accessor returning a stored attribute",
+    "err": "Result accessor returning a stored attribute",
+    "put": "Queue.put on an unbounded queue",
+    "on_error": "local closure that only constructs events and puts them on the queue (checked by _reports_error)",
+}
+
+
+def _only_total_calls(node: ast.AST) -> bool:
+    cs = [c for c in walk_local(node) if isinstance(c, ast.Call)]
+    return all((last_attr(c) in TOTAL_CALLS) or ((dotted(c.func) or "").startswith("events.")) for c in cs) and not any(
+        isinstance(x, ast.Subscript) for x in walk_local(node)
+    )
+
+
 NO_RAISE_MANAGERS = {"ignore_hypothesis_output", "catch_warnings", "warnings.catch_warnings"}
 
 
@@ -100,13 +117,13 @@ def o1_thread_targets(chk: Check) -> None:
                     visit(s.body, False)
                 elif isinstance(s, (ast.If, ast.While, ast.For)):
                     hdr = s.test if not isinstance(s, ast.For) else s.iter
-                    if any(isinstance(n, (ast.Call, ast.Subscript)) for n in ast.walk(hdr)):
+                    if any(isinstance(n, (ast.Call, ast.Subscript)) for n in ast.walk(hdr)) and not _only_total_calls(hdr):
                         uncovered.append(s)
                     visit(s.body, False)
                     visit(s.orelse, False)
-                elif _is_total_prelude(s):
+                elif _is_total_prelude(s) or _only_total_calls(s):
                     continue
-                elif any(isinstance(n, (ast.Call, ast.Subscript, ast.Attribute)) for n in walk_local(s)):
+                elif any(isinstance(n, (ast.Call, ast.Subscript)) for n in walk_local(s)):
                     uncovered.append(s)
 
         visit(fn.node.body, False)
@@ -237,6 +254,27 @@ def o2_run_test_ladder(chk: Check) -> None:
                 chk.violation("C05.O2", fn, construct, f"an exception of this class can finish the scenario with status {sorted(bad)}: the error is reported as success/skip and the exit code stays 0", fn.loc(h))
             else:
                 chk.undecided("C05.O2", fn, construct, f"status value set {sorted(values)} not decidable", fn.loc(h))
+
+    # (f) open -> ladder discipline: between the ScenarioStarted emission and the ladder only constructors, closures
+    #     and clock reads run; a repo *function* called there can raise with the scenario announced and nothing to
+    #     close it (the ladder is the only place that turns exceptions into ScenarioFinished)
+    from ..astutil import block_of as _block_of
+
+    b0 = _block_of(t)
+    if b0 is not None and b0[0] is fn.node.body:
+        blk0, idx0 = b0
+        started_idx = next((i for i, s in enumerate(blk0) if any(isinstance(y, ast.Yield) for y in walk_local(s)) and "scenario_started" in unparse(s).lower()), None)
+        if started_idx is not None and started_idx < idx0:
+            for s in blk0[started_idx + 1: idx0]:
+                if isinstance(s, (ast.FunctionDef, ast.ClassDef, ast.Import, ast.ImportFrom)):
+                    continue
+                for c in (x for x in walk_local(s) if isinstance(x, ast.Call)):
+                    r = P.resolve_call(fn, c)
+                    if r and r[0] == "func" and r[1].parent is None and r[1].cls is None:  # type: ignore[union-attr]
+                        chk.violation("C05.O2", fn, f"between ScenarioStarted and the ladder: {norm(c)[:80]}",
+                                      f"`{r[1].name}` runs after the scenario was announced but outside the exception ladder: if it raises, no ScenarioFinished/NonFatalError is produced for this operation",  # type: ignore[union-attr]
+                                      fn.loc(c))
+            chk.ok("C05.O2", fn, "only total statements between ScenarioStarted and the ladder", f"{idx0 - started_idx - 1} statement(s)", fn.loc(t))
 
     # (c) collected errors are emitted on every normal path after the try (except the interrupt return)
     err_loops = [n for n in g.live() if n.kind == "for" and "errors" in names_in(n.ast.iter)  # type: ignore[attr-defined]
